@@ -3,6 +3,8 @@
 
 mod c01;
 mod c02;
+mod c04;
+mod coin;
 mod c13;
 mod dispatch;
 mod pipe;
@@ -18,6 +20,7 @@ fn main() {
     let spec = match id.as_str() {
         "C01" => c01::spec(),
         "C02" => c02::spec(),
+        "C04" => c04::spec(),
         "C13" => c13::spec(),
         _ => {
             eprintln!("HARNESS-ERROR unknown property {id} for this build");
